@@ -107,7 +107,11 @@ func (c *checker) eval(s *structSpec, sc *scenario, nontrivial bool) outcome {
 	}
 	// every fourth load from the environment that set variables is run again with a .env file in the working directory that
 	// redefines those very variables: nothing may change
-	if !sc.DotEnv && out.API == "LoadFromEnvironment" && out.EnvVars > 0 && out.Panic == "" {
+	colliding := false // the loaded values of colliding fields depend on map iteration order on the unchanged tree: no differential there
+	for _, f := range s.Fields {
+		colliding = colliding || tagClass(s, f, sc.Prefix) == "colliding"
+	}
+	if !sc.DotEnv && !colliding && out.API == "LoadFromEnvironment" && out.EnvVars > 0 && out.Panic == "" {
 		c.envLoads++
 		if c.envLoads%4 == 0 {
 			twin := *sc
